@@ -541,6 +541,16 @@ func BuildPool(e *Eco, r *RNG, n int, extra []string) (*Pool, []string) {
 			all = append(all, hv[i])
 		}
 	}
+	// the tree under check newly imports a hash package: pairs of accepted texts whose 32-bit
+	// checksums collide join the pool (codelits.go)
+	if newHashImport(e.Name) {
+		for k, pr := range hashCollisionPairs(e, 7) {
+			if k < n/8 {
+				add(pr[0])
+				add(pr[1])
+			}
+		}
+	}
 	// constants that the tree under check has and the pinned tree has not (codelits.go): their
 	// families come first and may take up to a third of the pool
 	if len(newIntsFor(e.Name))+len(newStrsFor(e.Name)) > 0 {
